@@ -146,7 +146,7 @@ def run(ctx):
               found=show(sk, maxdepth=6), detail='skip = (0..k)%s' % (' + %s' % sorted(extras) if extras else ''))
     extras = frozenset(extras or ())
     # poses of the candidate
-    ps = show(byty['poses'], maxdepth=6)
+    ps = show(util.peval(prog, byty['poses']), maxdepth=7)       # a helper computing the f32 link poses is written out
     ctx.check('forward_with_joint_poses' in ps and c.name_of(arr[0]) in ps if arr else False, 'R14.4', 'poses', c.where(bi), c.path,
               'link poses must be those of the candidate', found=ps)
     # Some(candidate) exactly on the is_empty true edge
